@@ -18,3 +18,4 @@ import TFV.Properties.Src.MetricAccuracy
 #print axioms TFV.SrcTie.C19_src_accuracy
 #print axioms TFV.SrcTie.C19_src_accuracy_rejects
 #print axioms TFV.SrcTie.C19_src_mse
+#print axioms TFV.SrcTie.C19_src_r2
